@@ -82,7 +82,7 @@ func run(c *vf.Ctx) {
 	c.Rule("quick: mode{Argon2i,Argon2id} x threads{1,2,3,4,5,8,16} x memory{1,7,8t-1,8t,8t+1,8t+3,10t,12t-1,12t,12t+1,16t+5,64,100,256} KiB x " +
 		"[time 1: keyLen{1,4,31,32,33,63,64,65,95,96,97,127,128,129,300} x (pwLen,saltLen){(0,0),(1,8),(8,1),(200,200),(0,200),(200,0)}; time 2,3: keyLen{32,65,128} x (8,16)] " +
 		"plus long segments (threads,memory){(1,516),(1,1024),(1,1031),(2,1040),(2,2048),(3,1600)} x time{1,2} x keyLen{32,65}; plus threads 255 x memory{1,2039,2040,2041,3059,3060,3061,4096} x time{1,2} x keyLen{32,65}; each point x 1 value class (fixed alphabet / seeded, alternating along the grid) x block function {SSE4 asm, SSE2+portable rounds}; " +
-		"thorough: threads 1..17,32,64,128,254,255, more memory values (up to 1024 KiB), 27 key lengths x 16 shapes at time 1 (2 shapes at time 2,3), 3 value classes; " +
+		"thorough: threads 1..17,32,64,128,254,255, more memory values (up to 1024 KiB), 27 key lengths x 6 shapes plus keyLen{32,65} x 16 shapes at time 1, 27 key lengths x 1 shape at time 2,3, 2 value classes per point; " +
 		"H': every output length 1..1100 x input length{0,1,64,72,127,128,1024}; block function: 3 implementations x block alphabet x {xor,plain} x {distinct,out=in1}; " +
 		"non-trivial = distinct points with threads>=2, or memory not a multiple of 4*threads, or memory<8*threads, or keyLen>64")
 	c.Assume("the RFC 9106 model (own BLAKE2b per RFC 7693, KAT-validated against RFC 9106 §5, the PHC reference suite vectors and python hashlib.blake2b) is the oracle; argon2-cffi is not available offline")
@@ -99,44 +99,61 @@ func run(c *vf.Ctx) {
 	nclass := 2
 	if c.Thorough {
 		keyLens = append(keyLens, 2, 3, 5, 62, 66, 159, 160, 161, 192, 256, 1024, 1025)
-		shapes = nil
-		for _, a := range []int{0, 1, 8, 200} {
-			for _, b := range []int{0, 1, 8, 200} {
-				shapes = append(shapes, [2]int{a, b})
-			}
-		}
 		threads = nil
 		for t := 1; t <= 17; t++ {
 			threads = append(threads, uint8(t))
 		}
 		threads = append(threads, 32, 64)
-		nclass = 3
+		nclass = 2
 	}
 	for _, mode := range []int{argon2ref.TypeI, argon2ref.TypeID} {
 		for _, t := range threads {
 			for _, m := range memories(uint32(t), c.Thorough) {
 				for _, time := range []uint32{1, 2, 3} {
-					kls, shs := keyLens, shapes
-					if time > 1 && !c.Thorough {
-						kls, shs = []uint32{32, 65, 128}, [][2]int{{8, 16}}
+					type ks struct {
+						kl uint32
+						sh [2]int
 					}
-					if time > 1 && c.Thorough {
-						shs = [][2]int{{8, 16}, {200, 0}}
-					}
-					if c.Thorough && (m > 256 || t > 17) {
-						kls, shs = []uint32{32, 65, 300}, [][2]int{{8, 16}, {0, 0}}
-					}
-					for _, kl := range kls {
-						for _, sh := range shs {
-							if !c.Thorough {
-								// quick: one value class per point, alternating between the fixed
-								// alphabet and the seeded classes along the grid
-								grid = append(grid, point{mode, time, t, m, kl, sh[0], sh[1], len(grid) % 3})
-								continue
+					var combos []ks
+					switch {
+					case c.Thorough && (m > 256 || t > 17):
+						for _, kl := range []uint32{32, 65, 300} {
+							combos = append(combos, ks{kl, [2]int{8, 16}}, ks{kl, [2]int{0, 0}})
+						}
+					case time == 1:
+						// every key length x the base shapes; thorough adds all 16 shapes at keyLen 32, 65
+						for _, kl := range keyLens {
+							for _, sh := range shapes {
+								combos = append(combos, ks{kl, sh})
 							}
-							for cl := 0; cl < nclass; cl++ {
-								grid = append(grid, point{mode, time, t, m, kl, sh[0], sh[1], cl})
+						}
+						if c.Thorough {
+							for _, kl := range []uint32{32, 65} {
+								for _, a := range []int{0, 1, 8, 200} {
+									for _, b := range []int{0, 1, 8, 200} {
+										combos = append(combos, ks{kl, [2]int{a, b}})
+									}
+								}
 							}
+						}
+					case c.Thorough:
+						for _, kl := range keyLens {
+							combos = append(combos, ks{kl, [2]int{8, 16}})
+						}
+					default:
+						for _, kl := range []uint32{32, 65, 128} {
+							combos = append(combos, ks{kl, [2]int{8, 16}})
+						}
+					}
+					for _, cb := range combos {
+						if !c.Thorough {
+							// quick: one value class per point, alternating between the fixed
+							// alphabet and the seeded classes along the grid
+							grid = append(grid, point{mode, time, t, m, cb.kl, cb.sh[0], cb.sh[1], len(grid) % 3})
+							continue
+						}
+						for cl := 0; cl < nclass; cl++ {
+							grid = append(grid, point{mode, time, t, m, cb.kl, cb.sh[0], cb.sh[1], cl})
 						}
 					}
 				}
